@@ -2091,6 +2091,36 @@ func c14M6(c *rt.Ctx) {
 		for _, fn := range funcs {
 			inWrap[fn] = true
 		}
+		// free helpers of the package (not functions of another wrapper) that the wrapper's functions hand the
+		// dispatch to, e.g. one shared "field of version" selector: explored in place like the wrapper's own methods
+		{
+			foreign := map[*ssa.Function]bool{}
+			for _, o := range ws {
+				if o.Name != w.Name {
+					for _, fn := range c14WrapFuncs(c, o) {
+						foreign[fn] = true
+					}
+				}
+			}
+			work := append([]*ssa.Function(nil), funcs...)
+			depth := map[*ssa.Function]int{}
+			for len(work) > 0 {
+				fn := work[0]
+				work = work[1:]
+				if depth[fn] >= 4 {
+					continue
+				}
+				for _, ci := range an.Calls(fn, func(cc *ssa.CallCommon) bool { return cc.StaticCallee() != nil }, true) {
+					g := ci.Common().StaticCallee()
+					if g == nil || g.Blocks == nil || inWrap[g] || foreign[g] || g.Parent() != nil || !c14SamePkg(g, fn) || g.TypeParams().Len() > 0 || len(g.TypeArgs()) > 0 {
+						continue
+					}
+					inWrap[g] = true
+					depth[g] = depth[fn] + 1
+					work = append(work, g)
+				}
+			}
+		}
 		cmpMemo := map[*ssa.Function]bool{}
 		var hasCmp func(fn *ssa.Function) bool
 		hasCmp = func(fn *ssa.Function) bool {
@@ -2177,7 +2207,9 @@ func c14M6(c *rt.Ctx) {
 			}
 		}
 		sort.Strings(order)
-		if len(order) < 2 {
+		// A single dispatching function shared by two or more functions of the wrapper agrees with itself: the
+		// condition holds by construction (the case↔payload pairing is still checked below).
+		if len(order) == 0 || (len(order) == 1 && len(groups[order[0]].roots) < 2) {
 			c.Unsure("core."+w.Name, w.T.Obj().Pos(), "fewer than two version switches found for a versioned wrapper")
 			continue
 		}
@@ -2418,6 +2450,11 @@ func c14TouchOf(fn *ssa.Function, w c14Wrap, nullable map[string]bool, libOK fun
 			for _, a := range site.Common().Args {
 				ac := x.Unbox(a)
 				if ac.v == recv.v && ac.f == recv.f || x.IsClosureArg(a) {
+					return true
+				}
+				// a helper that is handed an error (e.g. the error result of a validating accessor) may be the
+				// one that tests it: the success/failure split of the accessor happens inside the helper
+				if an.IsErrorType(a.Type()) && !symIsNilConst(a) {
 					return true
 				}
 			}
